@@ -72,7 +72,7 @@ Qed.
 Section Run.
   Variable rec : ptd_fun.
   Variables (C : cfg) (S : schema) (frs : list fragdef) (fuel' : nat) (cn tn : string)
-            (tv : option (list string)).
+            (tv : option (list string)) (at_ : bool).
 
   Inductive subs_run (ctx : fctx) (f : fnode) (sub : list sel)
     : list related -> mem_state -> list pclass -> mem_state -> bool -> Prop :=
@@ -106,17 +106,17 @@ Section Run.
     : list fnode -> mem_state -> list pfield -> list pclass -> mem_state -> bool -> Prop :=
   | fr_nil pub : fields_run [] pub [] [] pub false
   | fr_cons f fs pub pf ctx exc exp exs pfl extra pub' sk :
-      field_pf C S frs fuel' cn tn tv f = Ok (pf, ctx) ->
+      field_pf C S frs fuel' cn tn tv at_ f = Ok (pf, ctx) ->
       parse_subs rec S ctx f pub = Ok (exc, exp, exs) ->
       fields_run fs exp pfl extra pub' sk ->
       fields_run (f :: fs) pub (pf :: pfl) (exc ++ extra) pub' (exs || sk).
 
   Lemma field_fold_err fs m :
-    fold_left (parse_field_step rec C S frs fuel' cn tn tv) fs (Err m) = Err m.
+    fold_left (parse_field_step rec C S frs fuel' cn tn tv at_) fs (Err m) = Err m.
   Proof. induction fs; simpl; auto. Qed.
 
   Lemma fields_fold : forall fs pfs0 extra0 pub0 sk0 pfs extra pub' sk,
-    fold_left (parse_field_step rec C S frs fuel' cn tn tv) fs (Ok (pfs0, extra0, pub0, sk0))
+    fold_left (parse_field_step rec C S frs fuel' cn tn tv at_) fs (Ok (pfs0, extra0, pub0, sk0))
       = Ok (pfs, extra, pub', sk) ->
     exists pfl exl skl, fields_run fs pub0 pfl exl pub' skl /\
                         pfs = pfs0 ++ pfl /\ extra = extra0 ++ exl /\ sk = sk0 || skl.
@@ -124,7 +124,7 @@ Section Run.
     induction fs as [|f fs IH]; intros pfs0 extra0 pub0 sk0 pfs extra pub' sk H; simpl in H.
     - inversion H; subst. exists [], [], false. rewrite !app_nil_r, orb_false_r. repeat split. constructor.
     -
-      destruct (field_pf C S frs fuel' cn tn tv f) as [[pf ctx]|m] eqn:E1; simpl in H;
+      destruct (field_pf C S frs fuel' cn tn tv at_ f) as [[pf ctx]|m] eqn:E1; simpl in H;
         [| rewrite field_fold_err in H; discriminate].
       destruct (parse_subs rec S ctx f pub0) as [[[exc exp] exs]|m] eqn:E2; simpl in H;
         [| rewrite field_fold_err in H; discriminate].
@@ -144,7 +144,7 @@ Section Run.
     - intro H. inversion H; subst. left. auto.
   Qed.
 
-  Lemma body_inv pub sels at_ eb out pub' sk :
+  Lemma body_inv pub sels eb out pub' sk :
     parse_body rec C S frs fuel' pub cn tn sels at_ eb tv = Ok (out, pub', sk) ->
     (mem cn pub = true /\ out = [] /\ pub' = pub /\ sk = true) \/
     (mem cn pub = false /\ exists fields0 mixins pfl extra,
@@ -170,7 +170,7 @@ Section Run.
   (* generic extraction of a per-field property from a run without skipped classes *)
   Lemma fields_run_Forall (P : fnode -> pfield -> Prop) : forall fs pub pfl extra pub',
     fields_run fs pub pfl extra pub' false ->
-    (forall f pf ctx exc pub0 pub1, In f fs -> field_pf C S frs fuel' cn tn tv f = Ok (pf, ctx) ->
+    (forall f pf ctx exc pub0 pub1, In f fs -> field_pf C S frs fuel' cn tn tv at_ f = Ok (pf, ctx) ->
         parse_subs rec S ctx f pub0 = Ok (exc, pub1, false) -> incl exc extra -> P f pf) ->
     Forall2 P fs pfl.
   Proof.
@@ -209,8 +209,8 @@ Section NamesInv.
       subst. rewrite map_app, app_assoc. auto.
   Qed.
 
-  Lemma fields_run_names cn tn tv : forall fs pub pfl extra pub' sk,
-    fields_run rec C S frs fuel' cn tn tv fs pub pfl extra pub' sk -> sk = false ->
+  Lemma fields_run_names cn tn tv at_ : forall fs pub pfl extra pub' sk,
+    fields_run rec C S frs fuel' cn tn tv at_ fs pub pfl extra pub' sk -> sk = false ->
     pub' = pub ++ map c_name extra /\ (NoDup pub -> NoDup pub').
   Proof.
     intros fs pub pfl extra pub' sk H.
@@ -810,10 +810,10 @@ Proof.
   - intros [E HP]. auto.
 Qed.
 
-Lemma conf_val_wrapP leafp eo S frs scs : forall t fc j,
-  conf_val_gen leafp eo fc S frs t scs j = true ->
+Lemma conf_val_wrapP leafp eo so S frs scs : forall t fc j,
+  conf_val_gen leafp eo so fc S frs t scs j = true ->
   wrapP (fun j' => j' <> JNull /\
-                   exists k, conf_val_gen leafp eo (Datatypes.S k) S frs (TNamed (base_name t)) scs j' = true) t j.
+                   exists k, conf_val_gen leafp eo so (Datatypes.S k) S frs (TNamed (base_name t)) scs j' = true) t j.
 Proof.
   induction t as [n | t IH | t IH]; intros fc j H; destruct fc as [|k]; try discriminate H.
   - simpl. destruct j; try (right; split; [discriminate | exists k; exact H]). left; reflexivity.
@@ -951,22 +951,23 @@ Definition abs_names (S : schema) (base : string) (sub : list sel) : list string
 Definition variant (names : list string) (base rt : string) : string :=
   if mem rt names then rt else base.
 
-Definition abs_ok (rec : string -> string -> list sel -> bool) (g : nat) (cov : bool) (S : schema)
+Definition abs_ok (rec : bool -> string -> string -> list sel -> bool) (g : nat) (cov : bool) (S : schema)
            (base : string) (sub : list sel) : bool :=
   cov && has_typename sub && no_spread g sub &&
   forallb (fun o => match o with Some _ => true | None => false end) (inline_tcs sub) &&
   negb (mem base (possible_types S base)) &&
   (match lookup_type S base with Some (DUnion ms) => forallb (is_object S) ms | _ => true end) &&
-  forallb (fun rt => is_object S rt && rec rt (variant (abs_names S base sub) base rt) sub)
+  forallb (fun rt => is_object S rt && rec true rt (variant (abs_names S base sub) base rt) sub)
           (possible_types S base).
 
 (* rt: the runtime object type of the response object; r: the type the class is generated for
-   (r = rt except for the base variant of an interface) *)
-Definition field_ok (rec : string -> string -> list sel -> bool) (g : nat) (cov : bool) (S : schema)
-           (nested : bool) (rt r : string) (f : fnode) : bool :=
+   (r = rt except for the base variant of an interface); abs: the class is a variant at an abstract
+   position (add_typename), where the __typename Literal ignores @skip/@include *)
+Definition field_ok (rec : bool -> string -> string -> list sel -> bool) (g : nat) (cov : bool) (S : schema)
+           (abs : bool) (rt r : string) (f : fnode) : bool :=
   (match fn_mixins f with [] => true | _ => false end) &&
   if String.eqb (fn_name f) "__typename" then
-    (match fn_sub f with None => true | Some _ => false end) && negb (nested && fn_cond f) &&
+    (match fn_sub f with None => true | Some _ => false end) && negb (abs && fn_cond f) &&
     (match schema_field_type S r "__typename" with
      | Ok (TNonNull (TNamed s)) => String.eqb s "String" | _ => false end) &&
     (match lookup_type S "String" with Some DScalar => true | _ => false end)
@@ -977,7 +978,7 @@ Definition field_ok (rec : string -> string -> list sel -> bool) (g : nat) (cov 
         (match schema_field_type S rt (fn_name f) with Ok t' => gtype_eqb t t' | Err _ => false end) &&
         match lookup_type S (base_name t), fn_sub f with
         | Some DScalar, None | Some (DEnum _), None => true
-        | Some (DObject _ _), Some sub => rec (base_name t) (base_name t) sub
+        | Some (DObject _ _), Some sub => rec false (base_name t) (base_name t) sub
         | Some (DInterface _ _), Some sub | Some (DUnion _), Some sub => abs_ok rec g cov S (base_name t) sub
         | _, _ => false
         end
@@ -986,7 +987,7 @@ Definition field_ok (rec : string -> string -> list sel -> bool) (g : nat) (cov 
 
 (* [cov]: additionally require pairwise distinct Python field names (needed for preservation, and for
    abstract positions) *)
-Fixpoint sels_ok (fuel : nat) (cov : bool) (C : cfg) (S : schema) (frs : list fragdef) (nested : bool)
+Fixpoint sels_ok (fuel : nat) (cov : bool) (C : cfg) (S : schema) (frs : list fragdef) (abs : bool)
          (rt r : string) (sels : list sel) : bool :=
   match fuel with
   | O => false
@@ -995,7 +996,7 @@ Fixpoint sels_ok (fuel : nat) (cov : bool) (C : cfg) (S : schema) (frs : list fr
       | Some fns =>
           keys_ok C (map field_key fns) &&
           (negb cov || nodupb (map (fun f => py_field_name C (field_key f)) fns)) &&
-          forallb (field_ok (sels_ok g cov C S frs true) g cov S nested rt r) fns
+          forallb (field_ok (sels_ok g cov C S frs) g cov S abs rt r) fns
       | None => false
       end
   end.
@@ -1050,12 +1051,13 @@ Proof.
   apply String.eqb_eq in E. exact E.
 Qed.
 
-Lemma field_pf_inv C S frs fuel' cn tn tv f pf ctx :
-  field_pf C S frs fuel' cn tn tv f = Ok (pf, ctx) ->
+Lemma field_pf_inv C S frs fuel' cn tn tv at_ f pf ctx :
+  field_pf C S frs fuel' cn tn tv at_ f = Ok (pf, ctx) ->
   exists t a0 il,
     schema_field_type S tn (fn_name f) = Ok t /\
     field_ann_lit C S frs fuel' tv f t (cn +++ pascal_s (py_field_name C (field_key f))) = Ok (a0, ctx, il) /\
-    pf = mk_pfield (py_field_name C (field_key f)) (field_key f) (cond_ann il (fn_cond f) a0) il (fn_cond f).
+    pf = mk_pfield (py_field_name C (field_key f)) (field_key f) (cond_ann (il && at_) (fn_cond f) a0)
+                   (il && at_) (fn_cond f).
 Proof.
   unfold field_pf. intro H. apply bind_ok in H. destruct H as [t [Ht H]].
   apply bind_ok in H. destruct H as [[[a0 ctx'] il] [Ha H]]. inversion H; subst.
@@ -1095,8 +1097,8 @@ Proof.
 Qed.
 
 (* the typename literal handed to a nested class contains the runtime type *)
-Definition tv_ok (nested : bool) (rt : string) (tv : option (list string)) : Prop :=
-  tv = None \/ (exists tvs, tv = Some tvs /\ nested = true /\ In rt tvs).
+Definition tv_ok (rt : string) (tv : option (list string)) : Prop :=
+  tv = None \/ (exists tvs, tv = Some tvs /\ In rt tvs).
 
 Definition table_ok (cs out : list pclass) : Prop :=
   forall c, In c out -> lookup_class cs (c_name c) = Some c /\ c_name c <> "BaseModel".
